@@ -53,6 +53,7 @@ class Engine:
         self.qfacts = []              # global lazily-instantiated facts
         self.contracts_used = set()
         self._alias_cache = {}
+        self.class_ids = {}
         self.global_cache = {}
         self.axiom_ids = set()        # ids of valid facts (UF inverse axioms, ghost lengths >= 0, definitional equations of fresh symbols)
         self.use_contracts = {}       # qname -> contract (set by the driver for the function under check)
@@ -562,10 +563,12 @@ class Engine:
                 if self.is_value_type(bt):
                     st.env[vid] = self.fresh_value(bt, 'any.' + rd.get('name', 'v'))
                     return LocalLV(vid)
-                r = self.fresh('anyobj.' + rd.get('name', 'v'), I); st.pc.append(r > 0)
                 if not t.ref:
-                    # a local variable that is an object of its own: not an element of a vector nor a member of another object
-                    st.pc.append(self.uf('tag', I, I)(r) == 0)
+                    # a local variable that is an object of its own: created by this function, hence distinct from every object
+                    # reachable from the inputs (fresh objects carry negative references); its contents are arbitrary
+                    st.env[vid] = ObjLV(self.new_object(), bt)
+                    return st.env[vid]
+                r = self.fresh('anyobj.' + rd.get('name', 'v'), I); st.pc.append(r > 0)
                 st.env[vid] = ObjLV(r, bt)
                 return st.env[vid]
             # global / static / constexpr variable
@@ -1075,9 +1078,19 @@ class Engine:
     def call(self, d, this, arg_nodes, st, fr, n, virtual=False, base_type=None):
         """call of a repo function with AST body (or use its contract)"""
         qn = self.ast.qname.get(d['id']) or self.ast.qualified_name(d)
-        if virtual and isinstance(this, ObjLV):
-            d2 = self.resolve_virtual(d, this, st, fr, n)
-            if d2 is not None: d = d2; qn = self.ast.qname.get(d['id']) or self.ast.qualified_name(d)
+        contract = self.use_contracts.get(qn)
+        if contract is not None and contract.applies(d, self):
+            return contract.apply_at_call(self, d, this, arg_nodes, st, fr, n)
+        if virtual and isinstance(this, ObjLV) and this.ty.kind == 'record':
+            targets = self.virtual_targets(d, this.ty.name)
+            if len(targets) > 1 or (len(targets) == 1 and targets[0][1] is not d and self.ast.fn_def.get(targets[0][1]['id'], targets[0][1]) is not d):
+                return self.dispatch_virtual(targets, this, arg_nodes, st, fr, n)
+            if len(targets) == 1:
+                d = self.ast.fn_def.get(targets[0][1]['id'], targets[0][1])
+                qn = self.ast.qname.get(d['id']) or self.ast.qualified_name(d)
+        return self.call_static(d, qn, this, arg_nodes, st, fr, n)
+
+    def call_static(self, d, qn, this, arg_nodes, st, fr, n):
         contract = self.use_contracts.get(qn)
         if contract is not None and contract.applies(d, self):
             return contract.apply_at_call(self, d, this, arg_nodes, st, fr, n)
@@ -1092,6 +1105,81 @@ class Engine:
         env2 = {}
         self.bind_args(params, arg_nodes, st, fr, env2)
         return self.run_inlined(d, qn, this, env2, st, fr, n)
+
+    # ---- virtual dispatch: the dynamic type of an object is unknown unless the path says otherwise (closed world of the AST)
+    def class_id(self, name):
+        if name not in self.class_ids: self.class_ids[name] = len(self.class_ids) + 1
+        return self.class_ids[name]
+
+    def subclasses(self, name):
+        out = []
+        for cn in self.ast.records:
+            try:
+                if name in self.bases_closure(cn): out.append(cn)
+            except Unsupported:
+                pass
+        return sorted(set(out))
+
+    def final_overrider(self, cls, mname, mtype):
+        """the method decl that a call of (mname, mtype) on an object of dynamic type cls executes"""
+        seen = [cls]
+        while seen:
+            c = seen.pop(0)
+            try: r = self.record(c)
+            except Unsupported: continue
+            for m in r.get('inner', []):
+                if m.get('kind') == 'CXXMethodDecl' and m.get('name') == mname and self.norm_sig(m['type']['qualType']) == self.norm_sig(mtype):
+                    return m
+            for b in self.ast.bases_of(r):
+                bt = TY.parse(b)
+                if bt.kind == 'record' and bt.name: seen.append(bt.name)
+        return None
+
+    @staticmethod
+    def norm_sig(t):
+        return t.replace(' override', '').replace(' final', '').replace('noexcept(true)', 'noexcept').replace(' ', '')
+
+    def virtual_targets(self, d, static_cls):
+        """[(classes, method decl)]: the possible callees, grouped by final overrider; abstract classes cannot be dynamic types"""
+        groups = {}
+        for cn in self.subclasses(static_cls):
+            m = self.final_overrider(cn, d.get('name'), d['type']['qualType'])
+            if m is None: continue
+            if m.get('pure'): continue
+            # a class with a pure virtual member cannot be the dynamic type
+            try:
+                if any(x.get('pure') and self.final_overrider(cn, x.get('name'), x['type']['qualType']) is x for x in self.record(cn).get('inner', []) if x.get('kind') == 'CXXMethodDecl'): continue
+            except Unsupported:
+                pass
+            groups.setdefault(m['id'], ([], m))[0].append(cn)
+        return list(groups.values())
+
+    def dispatch_virtual(self, targets, this, arg_nodes, st, fr, n):
+        dyn = self.uf('dyntype', I, I)(this.ref)
+        all_ids = [self.class_id(c) for (cls, m) in targets for c in cls]
+        st.pc.append(z3.Or(*[dyn == i for i in all_ids]))
+        states = []; rets = []
+        for (cls, m) in targets:
+            d2 = self.ast.fn_def.get(m['id'], m)
+            qn2 = self.ast.qname.get(d2['id']) or self.ast.qualified_name(d2)
+            s2 = st.clone()
+            s2.pc.append(z3.Or(*[dyn == self.class_id(c) for c in cls]))
+            obj = ObjLV(this.ref, TY.parse(self.ast.record_display_name(self.ast.owner_record(d2))))
+            try:
+                r = self.call_static(d2, qn2, obj, arg_nodes, s2, fr, n)
+            except PathEnd:
+                st.throws += s2.throws; continue
+            st.throws += s2.throws; s2.throws = []
+            states.append(s2); rets.append(r)
+        if not states: raise PathEnd()
+        if len(states) == 1:
+            st.assign_from(states[0]); return rets[0]
+        if any(r is None for r in rets) and not all(r is None for r in rets): raise Unsupported('virtual call with mixed results')
+        m_, r_ = merge_states(states, None if all(r is None for r in rets) else rets, base=self.base_for)
+        env_keep = st.env
+        st.assign_from(m_)
+        for k, v in env_keep.items(): st.env.setdefault(k, v)
+        return r_
 
     def resolve_virtual(self, d, this, st, fr, n):
         return None
